@@ -2,7 +2,13 @@
 
 Real code: DataLoader.time_align_data (python/fusion_engine_client/analysis/data_loader.py) called on dicts of
 MessageData built from real message objects.  Model/spec: lean/FeVerif/Model/Align.lean through the driver commands
-`align` / `alignspec` / `npunique` / `npisect`.
+`align` / `alignspec` / `alignseq` / `alignseqspec` / `npunique` / `npisect`.
+
+Besides single calls the harness drives HISTORIES on one dict: numeric conversions that keep the messages
+(DataLoader.to_numpy(data, keep_messages=True) / MessageData.to_numpy()) before and between one or more
+time_align_data() calls with different modes / type lists, also starting from read(time_align=..., return_numpy=...).
+Every call of a history is judged on its own: the property (oracle) and the Lean model/spec of ONE alignment applied
+to the message lists found immediately before the call (C15_history_refines_spec: a history is nothing but that).
 """
 import itertools
 import json
@@ -116,13 +122,22 @@ def ftime(m):
 
 def run_impl(case):
     """Runs the real code.  Returns a dict describing everything the oracle and the correspondence need."""
+    return call_align(build(case), case)
+
+
+def call_align(data, case, snap_cache=None):
+    """One time_align_data() call on `data` in whatever state it is.  The 'input objects' are the messages listed
+    immediately before the call.  snap_cache: {id(object): content snapshot} known to be current (taken after the previous
+    call of a history, nothing ran in between)."""
     from fusion_engine_client.analysis.data_loader import DataLoader, TimeAlignmentMode
-    data = build(case)
     keys = list(data.keys())
     mds = [data[k] for k in keys]
     originals = [list(md.messages) for md in mds]            # keeps every input object alive: id() stays meaningful
     ids = [{id(m): i for i, m in enumerate(lst)} for lst in originals]
-    snaps = [[repr(canon.canon(m)) for m in lst] for lst in originals]
+    if snap_cache:
+        snaps = [[snap_cache.get(id(m)) or repr(canon.canon(m)) for m in lst] for lst in originals]
+    else:
+        snaps = [[repr(canon.canon(m)) for m in lst] for lst in originals]
     meta = [(md.message_type, md.message_class) for md in mds]
     req = case['req']
     if req is not None:
@@ -172,12 +187,13 @@ def default_snapshot(cls, cache={}):
     return cache[cls]
 
 
-def oracle(ctx, case, r):
-    """The property statement, evaluated on the real objects.  Returns True if it holds."""
-    site = 'C15/' + case['mode']
+def oracle(ctx, case, r, prefix='C15/', replay=None, note=''):
+    """The property statement, evaluated on the real objects.  Returns True if it holds.  `case` describes the call
+    (mode, message_types, the P1 times listed before the call); `replay` is what reproduces it (the whole history)."""
+    site = prefix + case['mode']
 
     def bad(sig, desc):
-        ctx.violation(site + '-' + sig, desc, case)
+        ctx.violation(site + '-' + sig, note + desc, case if replay is None else replay)
         return False
 
     if r['err'] is not None:
@@ -206,6 +222,7 @@ def oracle(ctx, case, r):
         for i, m in enumerate(r['originals'][k]):
             if repr(canon.canon(m)) != r['snaps'][k][i]:
                 return bad('original-content-changed', '%s message %d: field values changed' % (name, i))
+    r['content_verified'] = True        # every snapshot in r['snaps'] is the object's content after the call too
     if not aligned:
         return True
     valid_sets = [set(t for t in case['types'][k][1] if t is not None) for k in aligned]
@@ -345,6 +362,168 @@ def run_cases(ctx, cases):
         ctx.sample({'case': case, 'result': txt})
 
 
+# ---- histories: several operations on the same dict ------------------------------------------------------------------
+# history = {'types': [...] as in a case, 'ops': [op, ...], optional 'scale'}
+# op = {'op': 'align', 'mode': 'drop'|'insert', 'req': None | [class names], optional 'req_form', 'req_container'}
+#    | {'op': 'numpy', 'remove_nan': bool, 'on': None (DataLoader.to_numpy(data, keep_messages=True))
+#                                               | [class names] (MessageData.to_numpy() of these entries only)}
+# A numeric conversion that keeps the messages does not change the message lists, so it is the identity of the model
+# state; everything it attaches to the entry (p1_time, ... arrays) is outside the state time_align_data may depend on.
+
+def op_text(op):
+    if op['op'] == 'numpy':
+        return 'to_numpy(%s%s)' % ('dict' if op.get('on') is None else '+'.join(op['on']), '' if op.get('remove_nan', True) else ',keep-nan')
+    return '%s(%s)' % (op['mode'].upper(), '*' if op['req'] is None else ','.join(op['req']))
+
+
+def do_numpy(data, op):
+    from fusion_engine_client.analysis.data_loader import DataLoader
+    if op.get('on') is None:
+        DataLoader.to_numpy(data, remove_nan_times=op.get('remove_nan', True), keep_messages=True)
+    else:
+        for n in op['on']:
+            md = data.get(by_name(n).MESSAGE_TYPE)
+            if md is not None:
+                try:
+                    md.to_numpy(remove_nan_times=op.get('remove_nan', True), keep_messages=True)
+                except ValueError:
+                    pass            # documented: the class has no numeric form
+
+
+def run_history(ctx, data, names, ops, replay, scale=1, prefix='C15/history-', first_step=0, before=()):
+    """Applies `ops` to `data` in place.  Every time_align_data() call is judged by oracle() against the lists found
+    immediately before it.  Returns (steps, complete): steps = [(step case, result text, ok)] for the calls made,
+    complete = every operation was carried out and judged correct (then the final lists are meaningful)."""
+    mds = list(data.values())
+    alive = []                      # every object ever listed stays alive: id() stays meaningful
+    steps = []
+    done = list(before)
+    cache = {}
+    for j, op in enumerate(ops):
+        pre = [list(md.messages) for md in mds]
+        alive.append(pre)
+        if op['op'] != 'align':
+            cache = {}
+        if op['op'] == 'numpy':
+            err = None
+            try:
+                do_numpy(data, op)
+            except Exception as e:      # noqa
+                err = '%s: %s' % (type(e).__name__, e)
+            post = [md.messages for md in mds]
+            if err is not None:
+                # not a statement of C15; the lists must still be what they were
+                ctx.count('observation_to_numpy_raised')
+            if list(data.values()) != mds or any(len(a) != len(b) or any(x is not y for x, y in zip(a, b)) for a, b in zip(pre, post)):
+                ctx.disagree('to_numpy(keep_messages=True) changed the message lists after [%s] (the harness models it as the '
+                             'identity on the lists)' % ' '.join(done), replay)
+                return steps, False
+            done.append(op_text(op))
+            ctx.count('history_numpy_ops')
+            continue
+        step = {'mode': op['mode'], 'req': op['req'], 'req_form': op.get('req_form', 'type'),
+                'req_container': op.get('req_container', 'list'), 'scale': scale,
+                'types': [[n, [ftime(m) if has_p1(by_name(n)) else None for m in lst]] for n, lst in zip(names, pre)]}
+        had_numpy = [isinstance(md.__dict__.get('p1_time'), np.ndarray) for md in mds]
+        r = call_align(data, step, cache)
+        classify(ctx, step)
+        note = 'call %d of the history [%s] -> %s: ' % (first_step + len(steps) + 1, ' '.join(done), op_text(op))
+        ok = oracle(ctx, step, r, prefix=prefix, replay=replay, note=note)
+        txt = impl_text(step, r) if r['err'] is None else 'error:' + r['err'].split(':')[0]
+        steps.append((step, txt, ok, note))
+        ctx.case(model_line('align', step), nontrivial=nontrivial(step))
+        if done:
+            ctx.count('calls_after_earlier_operations')
+        if any(had_numpy):
+            ctx.count('calls_on_entries_with_numpy_members')
+            # observed, outside the property: the numpy members are not realigned with the messages
+            for md, h in zip(mds, had_numpy):
+                if h and len(md.p1_time) != len(md.messages):
+                    ctx.count('observation_numpy_members_not_realigned')
+                    break
+        if any(len(a) != len(md.messages) or any(x is not y for x, y in zip(a, md.messages)) for a, md in zip(pre, mds)):
+            ctx.count('calls_that_changed_a_list')
+        if not ok or r['err'] is not None:
+            return steps, False
+        cache = {}
+        if r.get('content_verified'):
+            for lst, sn in zip(r['originals'], r['snaps']):
+                for m, x in zip(lst, sn):
+                    cache[id(m)] = x
+        done.append(op_text(op))
+    return steps, True
+
+
+def history_line(cmd, hist):
+    first = {'mode': 'drop', 'req': None, 'types': hist['types'], 'scale': hist.get('scale', 1)}
+    d = model_line(cmd, first).split(' ')[3]
+    parts = [cmd, d]
+    for op in hist['ops']:
+        if op['op'] == 'align':
+            parts += model_line(cmd, {'mode': op['mode'], 'req': op['req'], 'types': []}).split(' ')[1:3]
+    return ' '.join(parts)
+
+
+def judge_steps(ctx, steps, outs, replay, what='time_align_data'):
+    """outs: driver answers, (align, alignspec) per step."""
+    for j, (step, txt, ok, note) in enumerate(steps):
+        mo, so = outs[2 * j], outs[2 * j + 1]
+        if txt != mo:
+            ctx.disagree('%s != model, %simpl=%s model=%s' % (what, note, txt[:300], mo[:300]), replay)
+        if ok and txt != so:
+            ctx.violation('C15/history-%s-differs-from-spec' % step['mode'], '%simpl=%s spec=%s' % (note, txt[:300], so[:300]), replay)
+        if mo != so:
+            ctx.disagree('model != spec (contradicts the proved refinement): %s vs %s' % (mo[:200], so[:200]), replay)
+        ctx.cov['traces_validated_against_impl'] += 1
+
+
+def run_histories(ctx, hists):
+    lines, pending = [], []
+    for hist in hists:
+        data = build(hist)
+        names = [n for n, _ in hist['types']]
+        mds = list(data.values())
+        first = [list(md.messages) for md in mds]
+        ids = [{id(m): i for i, m in enumerate(lst)} for lst in first]
+        steps, complete = run_history(ctx, data, names, hist['ops'], hist, scale=hist.get('scale', 1))
+        ncalls = sum(1 for op in hist['ops'] if op['op'] == 'align')
+        ctx.count('history_with_%d_calls' % ncalls)
+        kinds = [op['op'] for op in hist['ops']]
+        if 'numpy' in kinds and 'align' in kinds[kinds.index('numpy'):]:
+            ctx.count('history_numpy_before_a_call')
+        final = None
+        if complete and ncalls:
+            # the whole history against alignSeq / specAlignSeq (objects named by their place in the FIRST lists)
+            out = []
+            for k, n in enumerate(names):
+                p = has_p1(by_name(n))
+                items = []
+                for m in mds[k].messages:
+                    i = ids[k].get(id(m))
+                    t = tkey(ftime(m), hist.get('scale', 1)) if p else 'n'
+                    items.append(('o%d@%s' % (i, t)) if i is not None else ('f@%s' % t))
+                out.append('%d:%s' % (int(by_name(n).MESSAGE_TYPE), ','.join(items)))
+            final = ';'.join(out)
+        base = len(lines)
+        for step, _, _, _ in steps:
+            lines.append(model_line('align', step))
+            lines.append(model_line('alignspec', step))
+        if final is not None:
+            lines.append(history_line('alignseq', hist))
+            lines.append(history_line('alignseqspec', hist))
+        pending.append((hist, steps, final, base))
+    outs = ctx.driver(lines)
+    for hist, steps, final, base in pending:
+        judge_steps(ctx, steps, outs[base: base + 2 * len(steps)], hist)
+        if final is not None:
+            mo, so = outs[base + 2 * len(steps)], outs[base + 2 * len(steps) + 1]
+            if final != mo or mo != so:
+                ctx.disagree('history != alignSeq: impl=%s model=%s spec=%s' % (final[:300], mo[:300], so[:300]), hist)
+            ctx.cov['traces_validated_against_impl'] += 1
+    for hist, steps, final, _ in pending[:: max(1, len(pending) // 2)][:2]:
+        ctx.sample({'history': hist, 'calls': [t for _, t, _, _ in steps], 'final': final})
+
+
 # ---- generators -----------------------------------------------------------------------------------------------------
 def subsets(grid):
     for mask in range(1 << len(grid)):
@@ -446,6 +625,96 @@ def scale_case(case):
     return case
 
 
+# ---- generators of histories ----------------------------------------------------------------------------------------
+NUMPY_PLACES = ['none', 'before', 'between', 'both']
+
+
+def with_numpy(calls, place, rng=None):
+    """Interleaves numeric conversions with the calls: before the first call, between the calls, both, or nowhere."""
+    def conv():
+        if rng is None or rng.random() < 0.6:
+            return {'op': 'numpy', 'remove_nan': True, 'on': None}
+        return {'op': 'numpy', 'remove_nan': rng.random() < 0.5, 'on': None}
+    ops = []
+    for j, c in enumerate(calls):
+        if (j == 0 and place in ('before', 'both')) or (j > 0 and place in ('between', 'both')):
+            ops.append(conv())
+        ops.append(c)
+    return ops
+
+
+def history_grid(ctx):
+    """Three types with P1 time over the subsets of a 3-point grid (+ one type without), every ordered pair of calls from
+    {DROP, INSERT} x {all types, each pair of types} x where the numeric conversions are made (sampled, see below)."""
+    p1, nop1 = classes()
+    A, B, C = [c.__name__ for c in p1[:3]]
+    X = nop1[0].__name__
+    subs = list(subsets([1.0, 2.0, 3.0]))
+    calls = [{'op': 'align', 'mode': m, 'req': r} for m in ('drop', 'insert') for r in (None, [A, B], [B, C], [A, C])]
+    # thorough: every history whose conversion precedes the first call, a sample of the other placements
+    keep = {'before': 1.0, 'none': 0.1, 'between': 0.15, 'both': 0.15} if ctx.thorough else \
+           {'before': 0.04, 'none': 0.01, 'between': 0.02, 'both': 0.02}
+    hists = []
+    for sa, sb, sc in itertools.product(subs, subs, subs):
+        for c1, c2 in itertools.product(calls, calls):
+            for place in NUMPY_PLACES:
+                if keep[place] < 1.0 and ctx.rng.random() >= keep[place]:
+                    continue
+                hists.append({'types': [[A, sa], [X, [None]], [B, sb], [C, sc]], 'ops': with_numpy([dict(c1), dict(c2)], place)})
+    return hists
+
+
+def random_history(rng):
+    """Random dict (as random_case: duplicates, unsorted, NaN, ...) and 1-4 calls with random type lists, numeric
+    conversions of the dict or of single entries anywhere."""
+    base = scale_case(random_case(rng))
+    names = [n for n, _ in base['types']]
+    p1, nop1 = classes()
+    pool = [c.__name__ for c in p1] + [c.__name__ for c in nop1]
+    ops = []
+    ncalls = rng.choice([1, 2, 2, 2, 3, 3, 4])
+    pn = rng.choice([0.0, 0.3, 0.6, 1.0])
+    for j in range(ncalls):
+        if rng.random() < pn:
+            on = None if rng.random() < 0.6 else [n for n in names if rng.random() < 0.6]
+            ops.append({'op': 'numpy', 'remove_nan': rng.random() < 0.7, 'on': on})
+        if j == 0:
+            req, form, cont = base['req'], base['req_form'], base['req_container']
+            mode = base['mode']
+        else:
+            mode = rng.choice(['drop', 'insert'])
+            if rng.random() < 0.35:
+                req = None
+            else:
+                req = [n for n in names if rng.random() < 0.6]
+                if rng.random() < 0.2:
+                    req.append(rng.choice(pool))
+                req = list(dict.fromkeys(req))
+            form, cont = rng.choice(['type', 'class', 'mixed']), rng.choice(['list', 'set', 'tuple'])
+        ops.append({'op': 'align', 'mode': mode, 'req': req, 'req_form': form, 'req_container': cont})
+    if rng.random() < 0.2:
+        ops.append({'op': 'numpy', 'remove_nan': True, 'on': None})
+    h = {'types': base['types'], 'ops': ops}
+    if 'scale' in base:
+        h['scale'] = base['scale']
+    return h
+
+
+def history_sequences(ctx, n):
+    """Order, duplicates and NaN inside the lists: three types with lists of length <= 3 over {1,2,3,NaN}, two or three calls."""
+    p1, nop1 = classes()
+    A, B, C = p1[0].__name__, p1[3].__name__, p1[2].__name__
+    rng = ctx.rng
+    vals = [1.0, 2.0, 3.0, None]
+    hists = []
+    for _ in range(n):
+        types = [[nm, [rng.choice(vals) for _ in range(rng.randrange(0, 4))]] for nm in (A, B, C)]
+        calls = [{'op': 'align', 'mode': rng.choice(['drop', 'insert']), 'req': rng.choice([None, [A, B], [B, C], [A, C], [A]])}
+                 for _ in range(rng.choice([2, 2, 3]))]
+        hists.append({'types': types, 'ops': with_numpy(calls, rng.choice(NUMPY_PLACES), rng)})
+    return hists
+
+
 def numpy_model(ctx, n):
     """np.unique / np.intersect1d(return_indices=True) against their Lean models, directly."""
     rng = ctx.rng
@@ -480,7 +749,9 @@ PACKABLE = ['PoseMessage', 'GNSSInfoMessage', 'PoseAuxMessage', 'IMUOutput', 'Ev
 
 def read_case(ctx, case, workdir, tag):
     """Writes the messages of `case` to a log, reads it unaligned and aligned with fresh loaders, and compares the aligned
-    result with the Lean model/spec applied to the unaligned result (objects matched by content, every message is distinct)."""
+    result with the Lean model/spec applied to the unaligned result (objects matched by content, every message is distinct).
+    case['read_numpy']: the aligned read also converts (return_numpy=True, keep_messages=True); case['ops']: operations
+    applied afterwards to the dict read() returned (a history that starts with the alignment made by read())."""
     import os
     from fusion_engine_client.analysis.data_loader import DataLoader, TimeAlignmentMode
     from fusion_engine_client.parsers import FusionEngineEncoder
@@ -498,7 +769,12 @@ def read_case(ctx, case, workdir, tag):
     mode = TimeAlignmentMode.DROP if case['mode'] == 'drop' else TimeAlignmentMode.INSERT
     try:
         r0 = DataLoader(path).read(message_types=cls_list, show_progress=False)
-        r1 = DataLoader(path).read(message_types=cls_list, show_progress=False, time_align=mode, aligned_message_types=req)
+        if case.get('read_numpy'):
+            r1 = DataLoader(path).read(message_types=cls_list, show_progress=False, time_align=mode, aligned_message_types=req,
+                                       return_numpy=True, keep_messages=True)
+            ctx.count('through_read_time_align_return_numpy')
+        else:
+            r1 = DataLoader(path).read(message_types=cls_list, show_progress=False, time_align=mode, aligned_message_types=req)
     except Exception as e:      # noqa
         ctx.violation('C15/read-%s-raised' % case['mode'], 'read(time_align=...) raised %s: %s' % (type(e).__name__, e), case)
         return None
@@ -507,7 +783,8 @@ def read_case(ctx, case, workdir, tag):
         return None
     names = [r0[k].message_class.__name__ for k in r0]
     seen = {'types': [[n, [ftime(m) if has_p1(by_name(n)) else None for m in r0[k].messages]] for n, k in zip(names, r0)],
-            'mode': case['mode'], 'req': case['req'], 'via': 'read', 'written': case['types']}
+            'mode': case['mode'], 'req': case['req'], 'via': 'read', 'written': case['types'],
+            'read_numpy': bool(case.get('read_numpy')), 'ops': case.get('ops', [])}
     out = []
     for n, k in zip(names, r0):
         cls = by_name(n)
@@ -527,7 +804,13 @@ def read_case(ctx, case, workdir, tag):
                     return None
             items.append(('o%d@%s' % (i, t)) if i is not None else ('f@%s' % t))
         out.append('%d:%s' % (int(cls.MESSAGE_TYPE), ','.join(items)))
-    return seen, ';'.join(out)
+    steps = []
+    if seen['ops']:
+        ctx.count('through_read_then_more_operations')
+        how = 'read(time_align=%s%s)' % (op_text({'op': 'align', 'mode': case['mode'], 'req': case['req']}),
+                                         ',return_numpy' if seen['read_numpy'] else '')
+        steps, _ = run_history(ctx, r1, names, seen['ops'], seen, prefix='C15/read-history-', first_step=1, before=[how])
+    return seen, ';'.join(out), steps
 
 
 def run_read_cases(ctx, n):
@@ -543,26 +826,48 @@ def run_read_cases(ctx, n):
                 case['req'] = [nm for nm in case['req'] if nm in PACKABLE]
             if not case['types']:
                 continue
+            # every other case goes on after read(): numeric conversion by read() itself or afterwards, further calls
+            if j % 2:
+                case['read_numpy'] = ctx.rng.random() < 0.5
+                more = random_history(ctx.rng)['ops']
+                names = [nm for nm, _ in case['types']]
+                for op in more:
+                    if op['op'] == 'align' and op['req'] is not None:
+                        op['req'] = [nm for nm in op['req'] if nm in PACKABLE]
+                    if op['op'] == 'numpy' and op['on'] is not None:
+                        op['on'] = [nm for nm in names if ctx.rng.random() < 0.6]
+                if not case['read_numpy'] and ctx.rng.random() < 0.7:
+                    more.insert(0, {'op': 'numpy', 'remove_nan': True, 'on': None})
+                case['ops'] = more
             res = read_case(ctx, case, workdir, str(j))
             if res is None:
                 continue
-            seen, txt = res
+            seen, txt, steps = res
             classify(ctx, seen)
             ctx.count('through_read_time_align')
+            base = len(lines)
             lines.append(model_line('align', seen))
             lines.append(model_line('alignspec', seen))
-            pending.append((seen, txt))
             ctx.case('read ' + lines[-2], nontrivial=nontrivial(seen))
+            for step, _, _, _ in steps:
+                lines.append(model_line('align', step))
+                lines.append(model_line('alignspec', step))
+            pending.append((seen, txt, steps, base))
     finally:
         shutil.rmtree(workdir, ignore_errors=True)
     outs = ctx.driver(lines)
-    for j, (seen, txt) in enumerate(pending):
-        mo, so = outs[2 * j], outs[2 * j + 1]
-        if txt != mo:
-            ctx.disagree('read(time_align) != model: impl=%s model=%s' % (txt[:300], mo[:300]), seen)
-        if txt != so:
-            ctx.violation('C15/read-%s-differs-from-spec' % seen['mode'], 'impl=%s spec=%s' % (txt[:300], so[:300]), seen)
-        ctx.cov['traces_validated_against_impl'] += 1
+    for seen, txt, steps, base in pending:
+        judge_read(ctx, seen, txt, steps, outs[base: base + 2 + 2 * len(steps)])
+
+
+def judge_read(ctx, seen, txt, steps, outs):
+    mo, so = outs[0], outs[1]
+    if txt != mo:
+        ctx.disagree('read(time_align) != model: impl=%s model=%s' % (txt[:300], mo[:300]), seen)
+    if txt != so:
+        ctx.violation('C15/read-%s-differs-from-spec' % seen['mode'], 'impl=%s spec=%s' % (txt[:300], so[:300]), seen)
+    ctx.cov['traces_validated_against_impl'] += 1
+    judge_steps(ctx, steps, outs[2:], seen, what='time_align_data after read(time_align)')
 
 
 def run(ctx, budget):
@@ -571,12 +876,18 @@ def run(ctx, budget):
     rnd = [scale_case(random_case(ctx.rng)) for _ in range(budget)]
     ctx.count('random_cases', len(rnd))
     run_cases(ctx, cases + rnd)
-    run_read_cases(ctx, 300 if ctx.thorough else 60)
+    hists = history_grid(ctx)
+    ctx.count('history_grid', len(hists))
+    hists += history_sequences(ctx, 6000 if ctx.thorough else 800)
+    hists += [random_history(ctx.rng) for _ in range(budget)]
+    run_histories(ctx, hists)
+    run_read_cases(ctx, 400 if ctx.thorough else 100)
     numpy_model(ctx, 3000 if ctx.thorough else 600)
 
 
 def search(ctx):
     run_cases(ctx, [scale_case(random_case(ctx.rng)) for _ in range(6000)])
+    run_histories(ctx, [random_history(ctx.rng) for _ in range(4000)])
 
 
 def check(ctx):
@@ -588,7 +899,17 @@ def check(ctx):
                        'NaN) of length <= 3 over {1,2,NaN} (35% sample in the quick tier). Random: 1-5 types, up to 40 distinct times, '
                        'duplicates, unsorted input, negative and half-integer times, invalid (NaN) P1 times, message_types as list/set/tuple '
                        'of MessageType / classes incl. types absent from the dict. Compared per type: which input object (by id()) or '
-                       'fabricated object sits at each position and its float(p1_time). non-trivial = at least two aligned types, '
+                       'fabricated object sits at each position and its float(p1_time). HISTORIES on one dict: 1-4 '
+                       'time_align_data() calls with different modes / type lists, numeric conversions that keep the messages '
+                       '(DataLoader.to_numpy(data, keep_messages=True, remove_nan_times=T/F), MessageData.to_numpy() of single entries) '
+                       'before / between / after the calls; three P1 types over the subsets of a 3-point grid x every ordered pair of '
+                       'calls from {DROP, INSERT} x {all, each pair of types} x placement of the conversions (thorough: all histories '
+                       'converting before the first call, 10-15% of the others; quick: 1-4%), random histories over the random dicts, '
+                       'histories over short lists with repeated / unordered / NaN times, and histories that start with '
+                       'read(time_align=..., return_numpy=T/F, keep_messages=True) on a written log and go on with the dict it '
+                       'returned. Every call of a history is judged against the lists found immediately before it (property oracle + '
+                       'Lean model + Lean spec of one call), the final lists against alignSeq / specAlignSeq of the whole history. '
+                       'non-trivial = at least two aligned types, '
                        'one of them non-empty; distinct = distinct (mode, message_types, per-type time lists)')
     ctx.assumptions += [
         'times are exactly representable floats (integers and half-integers scaled to integers for the model); the theorems are over '
@@ -598,8 +919,12 @@ def check(ctx):
         'object identity is id() with every input object kept alive; "unchanged content" is tools/canon.py canon() before/after of every '
         'input object (not part of the Lean model)',
         'the dict is modelled as the list of its items in iteration order',
+        'a numeric conversion with keep_messages=True is the identity on the model state (the message lists); the harness checks that '
+        'it leaves the lists alone (a difference is reported as a correspondence failure, it is not a statement of C15); what it '
+        'attaches to the entry is no input of time_align_data in the model - an implementation that reads it is judged by its results',
         'observed, outside the property text: an inserted message carries its time as numpy.float64 rather than Timestamp (pack() of it '
-        'raises); MessageData.message_bytes / message_index / num_messages are not realigned']
+        'raises); MessageData.message_bytes / message_index / num_messages and the numpy members attached by to_numpy() are not '
+        'realigned by time_align_data (counted as observation_numpy_members_not_realigned)']
     ctx.prove(MODULES)
     try:
         run(ctx, 6000 if ctx.thorough else 1200)
@@ -619,17 +944,19 @@ def replay(ctx, path):
         import tempfile
         workdir = tempfile.mkdtemp(prefix='c15_', dir=fv.BUILD)
         try:
-            c = {'mode': case['mode'], 'req': case['req'], 'types': case['written']}
+            c = {'mode': case['mode'], 'req': case['req'], 'types': case['written'],
+                 'read_numpy': case.get('read_numpy', False), 'ops': case.get('ops', [])}
             res = read_case(ctx, c, workdir, 'replay')
             if res is not None:
-                seen, txt = res
-                outs = ctx.driver([model_line('align', seen), model_line('alignspec', seen)])
-                if txt != outs[0]:
-                    ctx.disagree('read(time_align) != model: impl=%s model=%s' % (txt[:300], outs[0][:300]), seen)
-                if txt != outs[1]:
-                    ctx.violation('C15/read-%s-differs-from-spec' % seen['mode'], 'impl=%s spec=%s' % (txt[:300], outs[1][:300]), seen)
+                seen, txt, steps = res
+                lines = [model_line('align', seen), model_line('alignspec', seen)]
+                for step, _, _, _ in steps:
+                    lines += [model_line('align', step), model_line('alignspec', step)]
+                judge_read(ctx, seen, txt, steps, ctx.driver(lines))
         finally:
             shutil.rmtree(workdir, ignore_errors=True)
+    elif 'ops' in case:
+        run_histories(ctx, [case])
     else:
         run_cases(ctx, [case])
     return fv.finish(ctx, 'proof', None)
